@@ -576,6 +576,25 @@ pub fn run(cfg: &Cfg, rep: &mut Report, mode: &Mode2) {
             }
         }
     }
+    // statements after a statement that never completes, in every kind of body (shared with C03's family (l))
+    for (idx, text) in crate::props::c03::unreachable_code_programs(None).iter().enumerate() {
+        if !cfg.owns(idx as u64) {
+            continue;
+        }
+        let m = run_text(text, FUEL);
+        if matches!(m.outcome, Outcome::Rejected(..)) {
+            ctx.rep.count("unreachable-code:rejected");
+            continue;
+        }
+        ctx.rep.count("unreachable-code:accepted");
+        for (key, what) in ctx.absorb("unreachable-code", text, &m) {
+            if ctx.want(&key) {
+                ctx.emit(&key, &what, text);
+            } else {
+                ctx.rep.count(&format!("further:{}", truncate(&key, 80)));
+            }
+        }
+    }
     for (idx, case) in crate::optyping::typed_filter_cases().iter().enumerate() {
         if !cfg.owns(idx as u64) {
             continue;
